@@ -195,6 +195,18 @@ class Run:
                         main.current_tt._seconds)
                 self._addr().send_bundle(
                     st[1], ['/t', st[3]], [st[2], ['/u', st[3]]])
+            elif op == 'sendbo':
+                # nested bundle kept in ONE list object by the program and
+                # sent again and again (the library must not alter it)
+                self.ev('send', who, 'nested', st[3], self.now(),
+                        main.current_tt._seconds)
+                if not hasattr(self, 'shared_nested'):
+                    self.shared_nested = [st[2], ['/u', 99]]
+                self._addr().send_bundle(st[1], ['/t', st[3]],
+                                         self.shared_nested)
+                if self.shared_nested != [st[2], ['/u', 99]]:
+                    self.ev('raises', who, st, 'ProgramDataAltered',
+                            repr(self.shared_nested))
             elif op == 'play':
                 c = self.clocks[st[2]] if len(st) > 2 and st[2] else None
                 q = st[3] if len(st) > 3 else None
